@@ -1,5 +1,6 @@
 (* Dispatcher for C15: run the Spectrum integration/binning/resizing model on an encoded case.
-   1: Spectrum(w, v) followed by a sequence of resizing calls -> the state and exception after each call
+   1: Spectrum(w, v) followed by a session of calls on that object (resizing calls, value assignments, integrate and
+      bin queries) -> the state, the exception and the answer after each call
    2: integrate   3: bin   4: ends   5: sample *)
 From LV Require Import Lib.Codec Model.SpectrumEdit.
 Require Import ExtrOcamlBasic.
@@ -16,6 +17,15 @@ Definition pop : parser op :=
   else if t =? 4 then (o <- pspec ;; pret (OAppend o))
   else if t =? 5 then (g <- plq ;; pret (OResample g))
   else pfail.
+Definition prule0 : parser rule := t <- pZ ;; pret (if t =? 0 then Trapz else Simps).
+Definition pends0 : parser endsmode := t <- pZ ;; pret (if t =? 0 then Symmetric else Inside).
+(* calls of a session: 1..5 the resizing calls, 6 value assignment, 7 integrate, 8 bin *)
+Definition pcall : parser call :=
+  t <- pZ ;;
+  if t =? 6 then (v <- plq ;; pret (CSetValue v))
+  else if t =? 7 then (a <- popt pQ ;; b <- popt pQ ;; r <- prule0 ;; pret (CIntegrate a b r))
+  else if t =? 8 then (c <- plq ;; r <- prule0 ;; e <- pends0 ;; p <- pbool ;; pret (CBin c r e p))
+  else fun l => match pop (t :: l) with Some (o, rest) => Some (CEdit o, rest) | None => None end.
 Definition prule : parser rule := t <- pZ ;; pret (if t =? 0 then Trapz else Simps).
 Definition pends : parser endsmode := t <- pZ ;; pret (if t =? 0 then Symmetric else Inside).
 
@@ -23,14 +33,18 @@ Definition elq (l : list Qc) : list Z := elist eQ l.
 Definition eoutcome (o : outcome) : list Z :=
   (match snd o with None => 0 | Some e => errcode e end) :: elq (wave (fst o)) ++ elq (value (fst o)).
 
+Definition eanswer (a : answer) : list Z :=
+  match a with ANone => [0] | ANum x => 1 :: eQ x | ABins b => 2 :: eopt elq b end.
+Definition estep (r : outcome * answer) : list Z := eoutcome (fst r) ++ eanswer (snd r).
+
 Definition run_c15 (inp : list Z) : list Z :=
   match inp with
   | 1 :: rest =>
-    match pall (w <- plq ;; v <- plq ;; ops <- plist pop ;; pret (w, v, ops)) rest with
-    | Some (w, v, ops) =>
+    match pall (w <- plq ;; v <- plq ;; cs <- plist pcall ;; pret (w, v, cs)) rest with
+    | Some (w, v, cs) =>
         match make w v with
         | Err e => [1; errcode e]
-        | Ok s => 0 :: elist eoutcome (trace s ops)
+        | Ok s => 0 :: elist estep (session s cs)
         end
     | None => emalformed end
   | 2 :: rest =>
